@@ -49,9 +49,10 @@ def resolveObj (carrier : String) (env : Env) : Val → Val
   | .map kvs =>
     match lookup "environment" kvs with
     | some (.str e) =>
-      match env.lookup e with
-      | some found => .map (insert carrier (.str found) kvs)
-      | none => .map kvs
+      if e = "" then .map kvs      -- `if !ok || env == "" { continue }` (since the fix of `leak:config:empty-variable-name`)
+      else match env.lookup e with
+        | some found => .map (insert carrier (.str found) kvs)
+        | none => .map kvs
     | _ => .map kvs
   | v => v
 
